@@ -11,7 +11,8 @@
    include the weight coordinate), so every homogeneous coordinate, hence the projected point, is unchanged. *)
 From Coq Require Import List QArith Reals Qreals Lia Lra Arith Bool ZArith Permutation.
 From NV Require Import Scalar.Ops Model.Common Model.Basis Model.KnotIns Model.InsertKnot
-  Proofs.Boehm Proofs.BasisR Proofs.KnotInsR Proofs.InsertKnotR Proofs.KnotInsN Proofs.InsertNR Proofs.InsertDirR.
+  Proofs.Boehm Proofs.BasisR Proofs.KnotInsR Proofs.InsertKnotR Proofs.KnotInsN Proofs.InsertNR Proofs.InsertDirR Proofs.InsertVolR Proofs.InsertOpR
+  Run.InsertKnotH.   (* comparison helpers of the correspondence families: kept in the build closure of this file *)
 Import ListNotations.
 
 (* [G] the knot vector gains exactly r copies of u (multiset), in sorted position, whatever r, the span k being the
@@ -140,6 +141,78 @@ Theorem C04_surface_states_are_the_operation : forall (tol : R) (g : surf (T:=R)
 Proof. intros. apply insert_knot_surf_accept_u; assumption. Qed.
 Print Assumptions C04_surface_states_are_the_operation.
 
+(* [G] THE CURVE OPERATION AS A WHOLE: for every curve (any degree, sorted knot vector of the right length), every
+   parameter u in the half-open domain [U_p, U_n) (inside a span or on an interior knot of any multiplicity), every
+   count num >= 1 and the code's multiplicity tolerance (provided it does not confuse distinct knots):
+   operations.insert_knot (model, check_num) either rejects - exactly when num > p - multiplicity - and returns the
+   curve unchanged, or returns a curve of the same degree with num more control points and the same points.
+   The span and the multiplicity are the ones the code computes (find_span_linear, find_multiplicity). *)
+Theorem C04_insert_knot_curve_correct : forall (tol : R) (c : curve (T:=R)) (u : R) (dim : nat),
+  sortedR (c_U c) -> (c_p c < length (c_P c))%nat -> (length (c_U c) = length (c_P c) + c_p c + 1)%nat ->
+  (knR (c_U c) (c_p c) <= u < knR (c_U c) (length (c_P c)))%R ->
+  (forall i, (i < length (c_U c))%nat -> (Rabs (u - knR (c_U c) i) <= tol)%R -> knR (c_U c) i = u) ->
+  (forall i, (i < length (c_P c))%nat -> length (getp (c_P c) i) = dim) ->
+  forall num, (1 <= num)%nat ->
+  let '(c', raised) := insert_knot_curve Rops tol true c [Some u] [Z.of_nat num] in
+  (raised = true -> c' = c /\ (c_p c - find_multiplicity Rops tol u (c_U c) < num)%nat) /\
+  (raised = false -> (num <= c_p c - find_multiplicity Rops tol u (c_U c))%nat /\ c_p c' = c_p c /\
+     length (c_P c') = (length (c_P c) + num)%nat /\
+     forall cc t, (cc < dim)%nat -> curve_pt (c_p c') (c_U c') (c_P c') cc t = curve_pt (c_p c) (c_U c) (c_P c) cc t).
+Proof. exact insert_knot_curve_correct. Qed.
+Print Assumptions C04_insert_knot_curve_correct.
+
+(* the curve state the theorems speak about is literally what operations.insert_knot (model) returns *)
+Theorem C04_curve_state_is_the_operation : forall (tol : R) (c : curve (T:=R)) (t : R) (num : nat),
+  (1 <= num)%nat -> (num <= c_p c - find_multiplicity Rops tol t (c_U c))%nat ->
+  insert_knot_curve Rops tol true c [Some t] [Z.of_nat num] =
+  (mkC (c_p c) (knot_insertion_kv (c_U c) t (find_span_linear Rops (c_p c) (c_U c) (length (c_P c)) t) num)
+       (knot_insertion Rops (c_p c) (c_U c) (c_P c) t num (find_multiplicity Rops tol t (c_U c))
+          (find_span_linear Rops (c_p c) (c_U c) (length (c_P c)) t)), false).
+Proof. intros. apply insert_knot_curve_accept; assumption. Qed.
+Print Assumptions C04_curve_state_is_the_operation.
+
+(* [G] VOLUMES: in each direction the new net is fibre-wise the curve algorithm (gather into rows of points, A5.1 on
+   rows, scatter back = identity index maps) ... *)
+Theorem C04_volume_is_fibrewise : forall (g : vol (T:=R)) (t : R) (num s k i j l : nat),
+  ((s <= v_pu g)%nat -> (v_pu g <= k)%nat -> (k < v_su g)%nat -> (num <= v_pu g - s)%nat -> (i < v_su g + num)%nat -> (j < v_sv g)%nat -> (l < v_sw g)%nat ->
+     getp (vol_net_u Rops g t num s k) (j + i * v_sv g + l * (v_su g + num) * v_sv g) = getp (knot_insertion Rops (v_pu g) (v_Uu g) (fib_u g j l) t num s k) i) /\
+  ((s <= v_pv g)%nat -> (v_pv g <= k)%nat -> (k < v_sv g)%nat -> (num <= v_pv g - s)%nat -> (i < v_su g)%nat -> (j < v_sv g + num)%nat -> (l < v_sw g)%nat ->
+     getp (vol_net_v Rops g t num s k) (j + i * (v_sv g + num) + l * v_su g * (v_sv g + num)) = getp (knot_insertion Rops (v_pv g) (v_Uv g) (fib_v g i l) t num s k) j) /\
+  ((s <= v_pw g)%nat -> (v_pw g <= k)%nat -> (k < v_sw g)%nat -> (num <= v_pw g - s)%nat -> (i < v_su g)%nat -> (j < v_sv g)%nat -> (l < v_sw g + num)%nat ->
+     getp (vol_net_w Rops g t num s k) (j + i * v_sv g + l * v_su g * v_sv g) = getp (knot_insertion Rops (v_pw g) (v_Uw g) (fib_w g i j) t num s k) l).
+Proof.
+  intros. split; [|split]; intros; [apply vol_net_u_fibre|apply vol_net_v_fibre|apply vol_net_w_fibre]; assumption.
+Qed.
+Print Assumptions C04_volume_is_fibrewise.
+
+(* ... hence every volume point is unchanged, in each of the three directions, for every admissible count *)
+Theorem C04_insertion_preserves_volume_u : forall (g : vol (T:=R)) (t : R) (num s k dim : nat),
+  (forall i, (i < v_su g * v_sv g * v_sw g)%nat -> length (getp (v_P g) i) = dim) ->
+  sortedR (v_Uu g) -> (length (v_Uu g) = v_su g + v_pu g + 1)%nat -> (s <= v_pu g)%nat -> (num <= v_pu g - s)%nat ->
+  (v_pu g <= k)%nat -> (k < v_su g)%nat -> (knR (v_Uu g) k <= t < knR (v_Uu g) (k + 1))%R ->
+  (forall i, (k - s < i <= k)%nat -> knR (v_Uu g) i = t) ->
+  forall c tu tv tw, (c < dim)%nat -> vol_pt (vol_after_u g t num s k) c tu tv tw = vol_pt g c tu tv tw.
+Proof. intros g t num s k dim H0 H1 H2 H3 H4 H5 H6 H7 H8 c tu tv tw. apply (vol_insert_u_preserves g t num s k dim); assumption. Qed.
+Print Assumptions C04_insertion_preserves_volume_u.
+
+Theorem C04_insertion_preserves_volume_v : forall (g : vol (T:=R)) (t : R) (num s k dim : nat),
+  (forall i, (i < v_su g * v_sv g * v_sw g)%nat -> length (getp (v_P g) i) = dim) ->
+  sortedR (v_Uv g) -> (length (v_Uv g) = v_sv g + v_pv g + 1)%nat -> (s <= v_pv g)%nat -> (num <= v_pv g - s)%nat ->
+  (v_pv g <= k)%nat -> (k < v_sv g)%nat -> (knR (v_Uv g) k <= t < knR (v_Uv g) (k + 1))%R ->
+  (forall i, (k - s < i <= k)%nat -> knR (v_Uv g) i = t) ->
+  forall c tu tv tw, (c < dim)%nat -> vol_pt (vol_after_v g t num s k) c tu tv tw = vol_pt g c tu tv tw.
+Proof. intros g t num s k dim H0 H1 H2 H3 H4 H5 H6 H7 H8 c tu tv tw. apply (vol_insert_v_preserves g t num s k dim); assumption. Qed.
+Print Assumptions C04_insertion_preserves_volume_v.
+
+Theorem C04_insertion_preserves_volume_w : forall (g : vol (T:=R)) (t : R) (num s k dim : nat),
+  (forall i, (i < v_su g * v_sv g * v_sw g)%nat -> length (getp (v_P g) i) = dim) ->
+  sortedR (v_Uw g) -> (length (v_Uw g) = v_sw g + v_pw g + 1)%nat -> (s <= v_pw g)%nat -> (num <= v_pw g - s)%nat ->
+  (v_pw g <= k)%nat -> (k < v_sw g)%nat -> (knR (v_Uw g) k <= t < knR (v_Uw g) (k + 1))%R ->
+  (forall i, (k - s < i <= k)%nat -> knR (v_Uw g) i = t) ->
+  forall c tu tv tw, (c < dim)%nat -> vol_pt (vol_after_w g t num s k) c tu tv tw = vol_pt g c tu tv tw.
+Proof. intros g t num s k dim H0 H1 H2 H3 H4 H5 H6 H7 H8 c tu tv tw. apply (vol_insert_w_preserves g t num s k dim); assumption. Qed.
+Print Assumptions C04_insertion_preserves_volume_w.
+
 (* [G] a single-direction insertion exceeding degree - multiplicity is rejected and the object is unchanged
    (operations.insert_knot with check_num; curve, surface u / v, volume u / v / w; and the curve wrapper) *)
 Theorem C04_rejected_leaves_curve_unchanged : forall (tol : R) (c : curve (T:=R)) (u : R) (num : nat),
@@ -170,9 +243,11 @@ Proof.
 Qed.
 Print Assumptions C04_rejected_leaves_volume_unchanged.
 
-(* What is NOT a Coq theorem (tied by the correspondence check and the exact oracle only): the volume gather/scatter
-   patterns (see the volume theorems below if present); that find_multiplicity supplies an s with U_{k-s+1..k} = u
-   (find_span_linear's specification is C03_find_span_linear_spec). *)
+(* What is NOT a Coq theorem (tied by the correspondence check and the exact oracle only): for surfaces and volumes the
+   link from find_span_linear / find_multiplicity to the hypotheses on k and s (proved for curves in
+   C04_insert_knot_curve_correct; the searches are the same functions); that vol_after_* / surf_after_v are the states
+   insert_knot_vol / insert_knot_surf build (shown for the curve and the surface u-direction, by unfolding); sequences of insertions (each step is covered by the
+   theorems, their composition is immediate); the evaluators compute curve_pt / surf_pt / vol_pt (property C01). *)
 
 (* ---- non-vacuity: the hypotheses hold on a concrete cubic with a double interior knot, inserting on that knot ---- *)
 Example C04_hypotheses_satisfiable :
